@@ -226,3 +226,18 @@ mtext("C14",
       "trusted: buffer/view model with reference counts, sim-heap block table and event log",
       "deterministic simulation with allocator fault injection and abort trap vs reference model (buffer lifetime = conservation over allocator events)",
       "DESIGN.md 4.C14")
+
+check("C05", "exploration",
+      [dict(world="mem", mode=5, variants={"rel": 0.8, "asan": 0.2}, quick=100000, thorough=10000000)],
+      "one evaluation = one seeded history over 4 shared, 3 weak, 3 unique and 2 guarded pointer objects and up to 3 live allocations (each with its own callback identity, private pointer and tag byte), "
+      "with the clear-callback log and the sim heap's allocation events compared with the ownership model after every operation; distinct = distinct plan hash; non-trivial = at least two allocations were made",
+      ["src/memory.c", "include/cstl/memory.h"],
+      required_probes=["share_nonempty", "lock_live", "lock_dead", "lock_into_last_owner", "reset_last_owner", "reset_last_owner_with_weak_left",
+                       "weak_reset_frees_bookkeeping", "unique_release", "unique_swap", "shared_swap", "alloc_fail_fired"])
+mtext("C05",
+      "Sequential reference for C06, and a conservation law over allocator events: after EVERY operation the clear-callback log (which callback, on which memory, with which private pointer, while the payload is still intact) and the sim heap's block table must be exactly what the "
+      "owner/reference-count model predicts -- clear then free in the operation that removes the last owner (never earlier, later or twice), bookkeeping block freed in the operation that removes the last shared-or-weak reference, every co-owner's get() equal, unique() == (references == 1), "
+      "lock yields an owner iff one exists after the documented destination-reset; alloc failure (either malloc) leaves the object empty and leaks nothing; an all-reset epilogue leaves zero library blocks. With one task the scheduler is inert: this is a seeded history check whose observable only the sim heap provides.",
+      "trusted: ownership model (documented step order: destination reset first), sim-heap event log",
+      "deterministic simulation (single task): seeded histories + malloc fault injection vs ownership model, conservation over allocator events",
+      "DESIGN.md 4.C05")
